@@ -95,8 +95,15 @@ def has_unsigned(f):
 
 
 def on_disk(f):
+    """the file, or what it wraps, hands out netCDF4 variables"""
     import netCDF4
-    return isinstance(f, netCDF4.Dataset)
+    if isinstance(f, netCDF4.Dataset):
+        return True
+    try:
+        return any(isinstance(v, netCDF4.Variable)
+                   for _, v in f.variables.items())
+    except Exception:
+        return False
 
 
 def has_zero_dim(f):
@@ -412,7 +419,9 @@ def op_eval(rng, f):
     copyall = bool(rng.random() < 0.5)
     return ('eval(%r, copyall=%s)' % (expr, copyall),
             (lambda: f.eval(expr, copyall=copyall)), [], True,
-            {'expr': expr, 'scalar_operand': sc})
+            {'expr': expr, 'scalar_operand': sc,
+             'plain_array_value': on_disk(f),
+             'target_exists': 'NEW' in f.variables})
 
 
 def cf_time_exposed(f):
@@ -610,7 +619,8 @@ def op_fn_pncexpr(rng, f):
     expr = str(rng.choice(['XNEW = %s * 2', 'XNEW = %s + 1.5',
                            'XNEW = np.abs(%s)'])) % a
     return ('pncexpr(%r)' % expr, (lambda: pncexpr(expr, f)), [], True,
-            {'expr': expr})
+            {'expr': expr, 'plain_array_value': on_disk(f),
+             'target_exists': 'XNEW' in f.variables})
 
 
 def op_fn_merge(rng, f):
